@@ -220,6 +220,32 @@ def run_all(scn, ref, EoN, modes=("sep", "joint", "arr", "perc", "fast", "gin"))
         if r is not None:
             for k, d in compare_full(scn, ref, r[0], r[1]):
                 probs.append(("fast_nonMarkov_SIR(joint)", k, d))
+    if "sep" in modes and len(I0) == 1:
+        # the index case is left to the simulator (the random choice is scripted to fall on the scenario's seed);
+        # initial_recovereds is passed even when it is empty
+        tt, rt, jt = make_fxns(scn)
+        kw2 = dict(kw)
+        kw2.pop("initial_infecteds")
+        kw2["initial_recovereds"] = list(R0)
+
+        def decider(kind, info, pop, probs_):
+            try:
+                return list(pop).index(I0[0])
+            except ValueError:
+                return 0
+        nm = "fast_nonMarkov_SIR(default index case)"
+        try:
+            leaf = scripted.run_scripted(lambda: full(EoN.fast_nonMarkov_SIR(G, trans_time_fxn=tt, rec_time_fxn=rt, return_full_data=True, **kw2)),
+                                         [], decider=decider)
+            if leaf.error is not None:
+                probs.append((nm, "exception:%s" % type(leaf.error).__name__, "%r" % (leaf.error,)))
+            else:
+                got_seed = [u for u in nodes if leaf.result[0][u][1] and leaf.result[0][u][1][0] == "I"]
+                if got_seed == I0:       # the scripted choice did fall on the scenario's seed
+                    for k, d in compare_full(scn, ref, leaf.result[0], leaf.result[1]):
+                        probs.append((nm, k, d))
+        except scripted.Unmodelled:
+            pass                  # the index case is drawn in a way the scripted source does not model: C05/C18 own that
     if "arr" in modes:
         tt, rt, jt = make_fxns(scn)
         r = guard("fast_nonMarkov_SIR(arrays)", lambda: EoN.fast_nonMarkov_SIR(
@@ -521,6 +547,18 @@ def get_infected_nodes_scripted(scn, ref, EoN):
     if set(leaf.result) != ref["out"]:
         out.append(("out-component", "get_infected_nodes returned %r, the out-component of the initially infected nodes in the percolated digraph (initially recovered removed) is %r"
                     % (sorted(leaf.result), sorted(ref["out"]))))
+    # one initially recovered node, given in the documented single-node style; its label is 0
+    if len(R0) == 1 and not bad:
+        import networkx as nx
+        G0 = nx.relabel_nodes(G, {R0[0]: 0}, copy=True)
+        if list(G0.nodes()) == [0 if u == R0[0] else u for u in G.nodes()]:
+            del bad[:]
+            leaf0 = scripted.run_scripted(lambda: EoN.get_infected_nodes(G0, tau, gamma, initial_infecteds=list(I0), initial_recovereds=0), [], delays=delays)
+            if leaf0.error is not None:
+                out.append(("exception:%s" % type(leaf0.error).__name__, "get_infected_nodes(initial_recovereds=0 (a node)) raised %r" % (leaf0.error,)))
+            elif not bad and set(R0[0] if x == 0 else x for x in leaf0.result) != ref["out"]:
+                out.append(("out-component", "get_infected_nodes with the initially recovered node given as the bare node 0 returned %r, expected %r (node 0 stands for node %d of the scenario)"
+                            % (sorted(leaf0.result), sorted(ref["out"]), R0[0])))
     # overlapping initial sets are rejected
     if I0:
         try:
